@@ -163,6 +163,15 @@ def faults(model, cfg, facts):
     m, c = mod()
     m['encapsulee'] = ['Comp'] if ns else ['N', 'Comp']
     yield 'enc-wrong-scope', m, c
+    m, c = mod()
+    m['encapsulee'] = []
+    yield 'enc-empty-name', m, c
+    m, c = mod()
+    m['encapsulee'] = ns + ['Comp', 'Comp']
+    yield 'enc-name-too-long', m, c
+    m, c = mod()
+    m['encapsulee'] = (ns + ['Comp'])[1:] if ns else ['Comp', 'p']
+    yield 'enc-name-suffix-only', m, c
     itf = facts.ports[0].itf_fqn if facts.ports else None
     if itf:
         m, c = mod()
